@@ -29,7 +29,7 @@ CLAIM = ('The void-element decision is one boolean function used consistently by
          'pushed before every descent and popped exactly once per ascent. text() yields leading HTML white '
          'space, text, trailing HTML white space as non-empty tokens for every sequence of character classes '
          'up to length 4; the {namespace}local splitter ends the namespace at the first closing brace.'
-         ' An attribute key that reads as Clark notation comes out as a namespaced, possibly empty name (known finding, shared with C04). text() and the DOM walker\'s getNodeDetails are run from their source (on sample strings, on a model of a minidom element): whatever their shape, the tokens are leading HTML white space / text / trailing HTML white space, and an attribute without namespace keeps its whole name. The has-children flag that reaches emptyTag is the node\'s own.')
+         ' An attribute key that reads as Clark notation comes out as a namespaced, possibly empty name (known finding, shared with C04). text() and the DOM walker\'s getNodeDetails are run from their source (on sample strings, on a model of a minidom element): whatever their shape, the tokens are leading HTML white space / text / trailing HTML white space, and an attribute without namespace keeps its whole name. The has-children flag that reaches emptyTag is the node\'s own. The ElementTree walker\'s getNodeDetails, run on element models, takes the namespace from between the first pair of braces (`}` may occur in names). On the way up the walker tests for its start node before it moves to a sibling or parent.')
 NOT_DECIDED = ("the traversal itself (index arithmetic, tail handling, balance of start/end tags), rebuild equality, equality "
                "of the etree and dom streams.")
 MODULES = ["treewalkers/base.py", "treewalkers/etree.py", "treewalkers/dom.py", "treewalkers/__init__.py", "filters/lint.py",
